@@ -95,15 +95,20 @@ def lastDecl (ts : List Token) : Option Str :=
 def unknownsAfterLastDecl (ts : List Token) : List Str :=
   ts.foldl (fun acc t => match t with | .decl _ => [] | .unknownDecl u => acc ++ [u] | _ => acc) []
 
-/-- **the doctype clause**: the last doctype declaration when it is non-empty; otherwise the first non-empty
-    unknown declaration behind it; otherwise the empty text if there was any unknown declaration there, else the
-    (empty or missing) declaration itself -/
-def doctypeRead (ts : List Token) : Option Str :=
-  match lastDecl ts with
+/-- the reading as a function of the last doctype declaration and the unknown declarations behind it: the
+    declaration when it is non-empty; otherwise the first non-empty unknown declaration; otherwise the empty text if
+    there was any unknown declaration, else the (empty or missing) declaration itself -/
+def doctypeOfParts (base : Option Str) (us : List Str) : Option Str :=
+  match base with
   | some (c :: d) => some (c :: d)
   | base =>
-    match (unknownsAfterLastDecl ts).find? (fun u => !u.isEmpty) with
+    match us.find? (fun u => !u.isEmpty) with
     | some u => some u
-    | none => if (unknownsAfterLastDecl ts).isEmpty then base else some []
+    | none => if us.isEmpty then base else some []
+
+/-- **the doctype clause**: the last doctype declaration when it is non-empty; otherwise the first non-empty
+    unknown declaration behind it (behind the start of the input when there is no declaration) -/
+def doctypeRead (ts : List Token) : Option Str :=
+  doctypeOfParts (lastDecl ts) (unknownsAfterLastDecl ts)
 
 end AHP.Spec
